@@ -846,6 +846,22 @@ fn c08_oracle(sc: &Scenario, ex: &Execution, info: &mut CaseInfo) -> Vec<Finding
 // ---- C04 -----------------------------------------------------------------------------------
 
 fn values_strategy(t: Tier) -> BoxedStrategy<Scenario> {
+    // half of the cases use the policy that preempts at the point inside Clone / view closures
+    (values_strategy_base(t), prop_oneof![Just(0u8), Just(40u8), Just(100u8), Just(160u8)], any::<bool>())
+        .prop_map(|(mut sc, stay_target, on)| {
+            if on {
+                sc.sched.policy = crate::rt::Policy::Walk {
+                    stay: 239,
+                    target: Some(crate::rt::TARGET_PAYLOAD),
+                    stay_target,
+                };
+            }
+            sc
+        })
+        .boxed()
+}
+
+fn values_strategy_base(t: Tier) -> BoxedStrategy<Scenario> {
     gen::traffic(
         gen::qcfg(BOTH, FutMode::Mixed, prop_oneof![3 => Just(1u8), 3 => Just(2u8), 2 => Just(4u8)].boxed(), gen::wait_any()),
         scaled(
